@@ -7,7 +7,7 @@ from sa.analyses.buffers import BoundedRead, assignments, deps, linear
 from sa.db import AnalysisError, ClassInfo, FunctionInfo, dotted, mangle, norm_stmt, own_nodes
 
 CLAIM = {
-    "text": "Decides two structural necessities of chunking-independent parsing: (i) every generator that parses a pre-allocated, partially filled receive buffer (all buffered_incremental_deserialize implementations and the scanners / wrappers they delegate to) reads that buffer - slices, searches, hand-overs to callees - only up to a received-length variable (a value sent into the generator, a bounded search result, or a linear combination of those), so bytes that were never received cannot influence the result; (ii) the un-parsed remainder attached to a parse error survives every translation layer: each handler that converts an IncrementalDeserializeError / PacketConversionError / DeserializeError into the next layer's error passes on exc.remaining_data (or the frame's own remainder), and both consumers store it as the new buffer; plus the shape of LimitOverrunError's remainder computation (drop bytes one at a time until the rest is a *prefix* of the separator).",
+    "text": "Decides two structural necessities of chunking-independent parsing: (i) every generator that parses a pre-allocated, partially filled receive buffer (all buffered_incremental_deserialize implementations and the scanners / wrappers they delegate to) reads that buffer - slices, searches, hand-overs to callees - only up to a received-length variable (a value sent into the generator, a bounded search result, or a linear combination of those), so bytes that were never received cannot influence the result; (ii) the un-parsed remainder attached to a parse error survives every translation layer: each handler that converts an IncrementalDeserializeError / PacketConversionError / DeserializeError into the next layer's error passes on exc.remaining_data (or the frame's own remainder), and both consumers store it as the new buffer; plus the shape of LimitOverrunError's remainder computation (drop bytes one at a time until the rest is a *prefix* of the separator). Also decided (one error per bad frame, the stream stays usable): no input-dependent exception class but the parse-error family escapes any deserialisation entry point, protocol builder or consumer (escape analysis shared with C06), and no finished / dead parser generator stays parked in a consumer after a parse error (typestate shared with C10).",
     "note": "Trusted: Python slicing/search semantics. Not decided: frame-by-frame equality of the two receive paths, 'exactly one error per bad frame' (value level; DESIGN section 5 O1 records that an oversized frame yields several errors on the pinned tree).",
     "technique": "bounded-read data-flow (received-length closure over assignments, linear forms), exception-payload flow checks, shape facts - all over the ast program database",
 }
@@ -159,11 +159,24 @@ def check_lim(eng, run):
     run.ob("C02.lim", f"{fn.short}:remainder-from-consumed", fast and start)
 
 
+def check_one_error(eng, run):
+    """'a malformed frame yields exactly one parse error ... and every later frame is still delivered': (a) nothing input-dependent
+    but the parse-error family escapes any deserialisation entry point, protocol builder or stream consumer (escape analysis of
+    C06 - a foreign exception makes the consumer report RuntimeError('crashed') and drops the rest of the stream), and (b) after a
+    parse error no finished / dead parser generator stays parked in a consumer (typestate of C10.parser)."""
+    from rules import c06, c10
+    from sa.analyses.escape import EscapeSummaries
+    from sa.report import RuleAlias
+    c06.check_escape(eng, RuleAlias(run, "C02.err"), EscapeSummaries(eng))
+    c10.check_parser(eng, run, rule="C02.err", dead_only=True)
+
+
 def run(eng, run):
     run.not_decided += NOT_DECIDED
     check_bound(eng, run)
     check_keep(eng, run)
     check_lim(eng, run)
+    check_one_error(eng, run)
 
 
 # ---------------------------------------------------------------------------------------------- self-test corpus
@@ -199,4 +212,17 @@ BENIGN = [
     Variant("scanner-rename-buflen", _BRU, lambda fn: rename_local(fn, "buflen", "received"), why="local renamed"),
     Variant("limit-error-copy-instead-of-view", _BRU, lambda fn: replace_expr(fn, "memoryview(buffer)[:buflen]", "bytes(memoryview(buffer)[:buflen])"), why="a copy of the received part instead of a view"),
     Variant("auto-rename-view", _AUTO, lambda fn: rename_local(fn, "buffer_view", "view"), why="local renamed"),
+]
+
+
+MUTANTS += [
+    Variant("json-incremental-recursion-unmapped", "serializers.json:JSONSerializer.incremental_deserialize",
+            lambda fn: [setattr(h, "type", ast.parse("ValueError", mode="eval").body) for t in ast.walk(fn) if isinstance(t, ast.Try) for h in t.handlers
+                        if h.type is not None and "RecursionError" in ast.unparse(h.type)],
+            "C02.err", why="a frame within the limit but nested too deep crashes the consumer: later frames are lost (seed C02-5)"),
+    Variant("consumer-keeps-dead-parser-after-parse-error", "lowlevel._stream:StreamDataConsumer.next",
+            lambda fn: (delete_stmt(fn, stmt_is("self.__consumer = None")),
+                        [h.body.insert(0, ast.parse("self.__consumer = None").body[0]) for t in ast.walk(fn) if isinstance(t, ast.Try) and any("consumer.send" in ast.unparse(b) for b in t.body)
+                         for h in t.handlers if h.type is not None and ast.unparse(h.type) in ("StopIteration", "Exception")]),
+            "C02.err", why="a malformed frame split over two reads wedges the consumer (seed C02-4)"),
 ]
